@@ -297,7 +297,7 @@ func streamSparse(c *Ctx) {
 			wg.Add(1)
 			go func(j int) {
 				defer wg.Done()
-				for r := 0; r < c.n(150, 1500); r++ {
+				for r := 0; r < c.n(2500, 10000); r++ {
 					if run(jobs[j].specs) != jobs[j].want {
 						bad[j] = true
 						return
